@@ -65,4 +65,19 @@ Theorem C07_commit_allocates_each_new_page_once : forall ps fill fuel t order t'
   0 < ps -> aligned t -> closed true t -> commit_tree ps fill fuel t order = Ok (t', evs) -> Permutation (allocs evs) (zeros t').
 Proof. exact commit_tree_allocs. Qed.
 Print Assumptions C07_commit_allocates_each_new_page_once.
+
+(** the same with the inline decision: a bucket written inline frees every page it occupied, exactly once *)
+Theorem C07_bucket_commit_frees_exactly_what_it_drops : forall ps fill fuel t order t' evs inl,
+  (0 < fuel)%nat -> aligned t -> commit_bucket ps fill fuel t order = Ok (t', evs, inl) -> Permutation (runs t) (freed evs ++ runs t').
+Proof. exact commit_bucket_runs. Qed.
+Print Assumptions C07_bucket_commit_frees_exactly_what_it_drops.
+
+Theorem C07_bucket_commit_no_double_free : forall ps fill fuel t order t' evs inl,
+  (0 < fuel)%nat -> aligned t -> NoDup (ids t) -> commit_bucket ps fill fuel t order = Ok (t', evs, inl) ->
+  (forall p ov, In (EvFree p ov) evs -> In (p, ov) (runs t)) /\
+  NoDup (map fst (freed evs)) /\
+  NoDup (ids t') /\
+  (forall x, In x (ids t') <-> In x (ids t) /\ ~ In x (map fst (freed evs))).
+Proof. exact commit_bucket_frees. Qed.
+Print Assumptions C07_bucket_commit_no_double_free.
 End TreeLayer.
